@@ -13,7 +13,8 @@ ASSUMPTIONS = [
     "exceptions from servicing a closed server's stale tables are ignored by this check",
 ]
 
-SERVER_EVENTS = ["fresh", "reuse", "svc", "svc_pending", "cclose", "crst", "reopen", "close", "svc_hs_eof", "svc_hs_sslerror", "svc_hs_reset"]
+SERVER_EVENTS = ["fresh", "reuse", "svc", "svc_pending", "cclose", "crst", "reopen", "close", "svc_hs_eof", "svc_hs_sslerror", "svc_hs_reset",
+                 "svc_recv_eio", "port_taken", "port_freed"]
 TLS_ONLY = ("svc_pending", "svc_hs_eof", "svc_hs_sslerror", "svc_hs_reset")
 HS_ANSWER = {"svc_pending": "want_read", "svc_hs_eof": "eof", "svc_hs_sslerror": "sslerror", "svc_hs_reset": -104}
 CLIENT_EVENTS = ["up", "down", "connect", "service", "reopen", "close", "peerclose", "tick"]
@@ -26,7 +27,8 @@ def depth(tier):
 def RULE(tier):
     return ("explicit-state BFS to depth %d over event histories. Server (plain and TLS): {client connects from a fresh address, "
             "client reconnects from its previous address, server.service(), service with the TLS handshake still pending / ending in "
-            "EOF / failing with a protocol error (ssl.SSLError) / reset, client "
+            "EOF / failing with a protocol error (ssl.SSLError) / reset, service with every receive failing with an unclassified errno, the port "
+            "taken by / released by another listener (so that a reopen fails to bind), client "
             "closes, client resets, server.reopen(), server.close()}; after close()/reopen() every socket the server created or "
             "accepted must have been close()d (listen socket, ixes, pending-handshake cxes, replaced connections). Client (plain and "
             "TLS, reconnectable): {listener up/down, connect(), service(), reopen(), close(), peer closes, tyme advances}; after every "
@@ -49,10 +51,17 @@ class HsPolicy(fakenet.Policy):
         self.pending = False
         self.answer = None      # answer of the TLS handshake calls made during the current service(): None = completes
 
+        self.recv_errno = None  # errno every recv on an accepted socket fails with during the current service(): None = normal
+
     def handshake(self, sock):
         if self.answer is not None:
             return self.answer
         return "want_read" if self.pending else "ok"
+
+    def recv(self, sock, avail, bs):
+        if self.recv_errno is not None and sock.kind == "accepted":
+            return -self.recv_errno
+        return min(avail, bs) if avail else 0
 
 
 def run_server(tls, hist):
@@ -64,6 +73,7 @@ def run_server(tls, hist):
         server = serving.ServerTls(context=fakenet.FakeSSLContext(net), **kw) if tls else serving.Server(**kw)
         server.reopen()
         raws = []
+        foreign = []
         trace = []
         for i, ev in enumerate(hist):
             try:
@@ -90,6 +100,24 @@ def run_server(tls, hist):
                         server.service()
                     finally:
                         pol.answer = None
+                elif ev == "svc_recv_eio":      # an error no errno list classifies (EIO) on every receive of this pass
+                    pol.recv_errno = 5
+                    try:
+                        server.service()
+                    finally:
+                        pol.recv_errno = None
+                elif ev == "port_taken":        # somebody else listens on the server's port (possible while the server is closed)
+                    cur = net.listeners.get(6101)
+                    if cur is None or cur.closed:
+                        f = net.socket()
+                        f.owner = "raw"
+                        f.bind(("127.0.0.1", 6101))
+                        f.listen(5)
+                        foreign.append(f)
+                elif ev == "port_freed":
+                    for f in foreign:
+                        if not f.closed:
+                            f.close()
                 elif ev == "cclose":
                     live = [r for r in raws if not r.closed]
                     if live:
@@ -105,6 +133,9 @@ def run_server(tls, hist):
                 trace.append("ok")
             except Exception as ex:
                 trace.append("exc:" + type(ex).__name__)
+            for f in foreign:                 # connections queued at somebody else's listener are not the server's
+                for q in f.backlog:
+                    q.owner = "raw"
             if ev in ("close", "reopen"):
                 cur = server.ss if ev == "reopen" else None
                 leaked = [s for s in net.socks if s.owner != "raw" and not s.closed and s is not cur]
